@@ -42,7 +42,7 @@ def bounds(tier):
 
 
 def instances(tier):
-    out = [{"kind": "getter", "entity": "ac"}, {"kind": "getter", "entity": "zone"}]
+    out = [{"kind": "getter", "entity": "ac"}, {"kind": "getter", "entity": "zone"}, {"kind": "error_history"}]
     for c in CALLS:
         out.append({"kind": "request", "call": c})
     return out
@@ -216,9 +216,67 @@ def _c(x):
     return x.__index__() if isinstance(x, SymInt) else x
 
 
+def _error_history(ctx, p):
+    """Same status/error/version history on both stacks: error appears (console supplies the text), another attribute
+    changes while the error persists, the error clears, a version frame flips only the update flag."""
+    A = importlib.import_module("pyairtouch.api")
+    code = ctx.int("code", 1, 65535)
+    sp2 = ctx.int("sp2", 10, 35)
+    upd = ctx.bits("upd", 1)
+    results = {}
+    for gen in (4, 5):
+        g = Gen(gen)
+        st = _shared_state(ctx, []) if gen == 4 else results["st"]
+        results["st"] = st
+        inst = _installation(gen, st)
+        snaps = []
+        with ApiRig(ctx, g, inst) as rig:
+            con = rig.console
+            rig.start()
+            rig.run(1.0)
+            ctx.check(rig.init_result is True, "equal_getters", detail=f"AT{gen} handshake failed")
+            acobj = rig.ac(0)
+
+            def snap():
+                ei = acobj.error_info
+                snaps.append((None if ei is None else (ei.code, ei.description), acobj.target_temperature, rig.at.update_available,
+                              list(rig.at.console_versions)))
+
+            def push_status(sp, err):
+                s2 = dict(st, sp=sp, err=err)
+                i2 = _installation(gen, s2)
+                con.inst.ac_status = i2.ac_status
+                con.push(con.ac_status_frame(pid=0x50))
+                rig.run(rig.loop.vt_now() + 1.0)
+
+            push_status(st["sp"], code)
+            snap()
+            push_status(sp2, code)
+            snap()
+            push_status(sp2, 0)
+            snap()
+            con.inst.version = (True, con.inst.version[1])
+            raw = con.version_frame(pid=0x51)
+            from ref import framing
+            data = list(raw[framing.header_len(gen):-2])
+            data[2] = upd
+            con.push(con.frame(0x1F, data, pid=0x51))
+            rig.run(rig.loop.vt_now() + 1.0)
+            snap()
+        results[gen] = snaps
+    for i, (a, b) in enumerate(zip(results[4], results[5])):
+        ctx.check(_eq(a[0], b[0]), "equal_getters", detail={"step": i, "what": "error_info", "at4": repr(a[0]), "at5": repr(b[0])})
+        ctx.check(_eq(a[1], b[1]), "equal_getters", detail={"step": i, "what": "target_temperature"})
+        ctx.check(_eq(a[2], b[2]), "equal_getters", detail={"step": i, "what": "update_available", "at4": repr(a[2]), "at5": repr(b[2])})
+    for lab in expect_labels("quick"):
+        ctx.reach(lab)
+
+
 def run(ctx, p):
     A = importlib.import_module("pyairtouch.api")
     kind = p["kind"]
+    if kind == "error_history":
+        return _error_history(ctx, p)
     entity = p.get("entity")
     if kind == "getter":
         getters = AC_GETTERS if entity == "ac" else ZONE_GETTERS
